@@ -329,6 +329,11 @@ func c04Custom(c *Ctx) {
 }
 
 func c04API(c *Ctx) {
+	// another Mux of this process replaces the built-in codecs by its own: what a Mux offers and how it
+	// encodes is its own affair — the muxes below (built after this one) must not be affected
+	if _, err := larking.NewMux(larking.CodecOption("application/json", verifCodec{}), larking.CodecOption("application/protobuf", verifCodec{}), larking.CodecOption("application/x-other-mux", verifCodec{})); err != nil {
+		c.Note("c04: foreign mux: " + err.Error())
+	}
 	c04Custom(c)
 	var reply proto.Message
 	var sendHeaderFirst bool
